@@ -284,6 +284,23 @@ async fn dup_seq_rows(n: &Node) -> Vec<i64> {
     ids
 }
 
+/// panics caught while a node applied a batch (normalised): the script goes on
+static PANICS: std::sync::Mutex<Vec<String>> = std::sync::Mutex::new(Vec::new());
+
+async fn apply_batch(node: &Node, batch: Vec<(ChangeV1, ChangeSource, Instant)>) {
+    use futures::FutureExt;
+    let fut = process_multiple_changes(node.kit.agent.clone(), node.bookie.clone(), batch, Duration::from_secs(30));
+    if let Err(p) = std::panic::AssertUnwindSafe(fut).catch_unwind().await {
+        let msg = p.downcast_ref::<String>().cloned().or_else(|| p.downcast_ref::<&str>().map(|x| x.to_string())).unwrap_or_else(|| "?".into());
+        let kind = if msg.contains("has len") && msg.contains("but seqs range is") {
+            "complete-version-len>seqs".to_string()
+        } else {
+            msg.chars().filter(|c| !c.is_whitespace() && *c != ',').take(60).collect()
+        };
+        PANICS.lock().unwrap().push(kind);
+    }
+}
+
 async fn node_dump(n: &Node) -> (String, String, SyncStateV1) {
     let conn = n.kit.agent.pool().read().await.unwrap();
     let rows: Vec<String> = conn
@@ -368,7 +385,7 @@ async fn sync_pull(nodes: &mut [Node], n: usize, m: usize, lossy: bool) -> usize
         .map(|(_, c)| (c, ChangeSource::Sync, Instant::now()))
         .collect();
     if !batch.is_empty() {
-        let _ = process_multiple_changes(nodes[n].kit.agent.clone(), nodes[n].bookie.clone(), batch, Duration::from_secs(30)).await;
+        apply_batch(&nodes[n], batch).await;
     }
     apply_pending(&mut nodes[n]).await;
     total
@@ -398,6 +415,7 @@ fn split(c: &ChangeV1) -> Vec<ChangeV1> {
 ///  B modes: 0 in order, 1 reversed, 2 every second dropped, 3 each twice, 4 split in two and only the first half,
 ///           5 split in two, second half first
 pub fn cluster(t: &mut Toks) -> String {
+    PANICS.lock().unwrap().clear();
     let rt = tokio::runtime::Builder::new_multi_thread().worker_threads(4).enable_all().build().unwrap();
     let nn = t.usize();
     let nops = t.usize();
@@ -473,7 +491,7 @@ pub fn cluster(t: &mut Toks) -> String {
                     };
                     if !list.is_empty() {
                         let batch: Vec<_> = list.drain(..).map(|c| (c, ChangeSource::Broadcast, Instant::now())).collect();
-                        let _ = process_multiple_changes(nodes[m].kit.agent.clone(), nodes[m].bookie.clone(), batch, Duration::from_secs(30)).await;
+                        apply_batch(&nodes[m], batch).await;
                         apply_pending(&mut nodes[m]).await;
                     }
                 }
@@ -509,7 +527,8 @@ pub fn cluster(t: &mut Toks) -> String {
                 for r in rows { eprintln!("DBG node{i} {r}"); }
             }
         }
-        let mut outs = vec![format!("acked={} rounds={}", acked, used)];
+        let panics: Vec<String> = std::mem::take(&mut *PANICS.lock().unwrap());
+        let mut outs = vec![if panics.is_empty() { format!("acked={} rounds={}", acked, used) } else { format!("acked={} rounds={} panics={}", acked, used, panics.join(",")) }];
         for n in nodes.iter() {
             let (tbl, clk, st) = node_dump(n).await;
             let mut heads: Vec<String> = vec![];
